@@ -78,7 +78,7 @@ def relabel(df: pd.DataFrame, how: int) -> pd.DataFrame:
     return df
 
 
-def call_fit(prod, pvt, *, spy: bool, **kw):
+def call_fit(prod, pvt, *, spy: bool, positional: bool = False, **kw):
     """fit_production_pressure with lmfit.Minimizer observed from the harness side.
     spy=False: recorder only (the minimisation is not run).  Returns (outcome, captured, result)."""
     import lmfit  # noqa: PLC0415
@@ -107,7 +107,12 @@ def call_fit(prod, pvt, *, spy: bool, **kw):
     try:
         with warnings.catch_warnings():
             warnings.simplefilter("ignore")
-            result = fpm.fit_production_pressure(prod, pvt, **kw)
+            if positional:
+                # the documented parameter order, as a positional caller relies on it
+                result = fpm.fit_production_pressure(prod, pvt, kw["pressure_initial"], kw["filter_window_size"], kw["pressure_imax"],
+                                                     kw["inplace_max"], kw["filter_zero_prod_days"], kw["n_iter"])
+            else:
+                result = fpm.fit_production_pressure(prod, pvt, **kw)
         outcome = "ok"
     except _Captured:
         outcome = "ok"
@@ -219,11 +224,11 @@ def rf_lib(ref: dict, pvt, days, tau, p_i, pf):
     from bluebonnet.flow import FlowProperties, SinglePhaseReservoir  # noqa: PLC0415
 
     if (ref["ctor_fracface"], ref["ctor_initial"], ref["fluid_at"], ref["time"], ref["schedule"], ref["recovery"]) != \
-            ("p_initial", "p_initial", "p_initial", "days/tau", "pressure_fracface", "flux"):
+            ("schedule[0]", "p_initial", "p_initial", "days/tau", "pressure_fracface", "flux"):
         raise tlc.MachineryError(f"RefModel {ref} is not understood by the harness")
     with warnings.catch_warnings():
         warnings.simplefilter("ignore")
-        res = SinglePhaseReservoir(int(ref["nx"]), p_i, p_i, FlowProperties(pvt, p_i))
+        res = SinglePhaseReservoir(int(ref["nx"]), float(np.asarray(pf, dtype=float)[0]), p_i, FlowProperties(pvt, p_i))
         res.simulate(np.asarray(days, dtype=float) / tau, pressure_fracface=np.asarray(pf, dtype=float))
         return np.asarray(res.recovery_factor(), dtype=float)
 
@@ -369,8 +374,9 @@ def fit_events(ref: dict, seed, count: int) -> list[dict]:
         guess = rng.uniform(float(np.nanmax(pres)) * 0.5, pimax * 1.05)  # the guess may lie outside the limits
         kw = dict(pressure_initial=guess, filter_window_size=window, pressure_imax=pimax, inplace_max=inplace,
                   filter_zero_prod_days=filt, n_iter=n_iter)
-        outcome, cap, result = call_fit(prod, pvt, spy=True, **kw)
-        raw = {"generated_with": gen, "rows": n0, "zero_rate_days": nz, "missing_pressures": nm,
+        positional = bool(gi % 5 == 1)
+        outcome, cap, result = call_fit(prod, pvt, spy=True, positional=positional, **kw)
+        raw = {"generated_with": gen, "called_positionally": positional, "rows": n0, "zero_rate_days": nz, "missing_pressures": nm,
                "kwargs": {k: (None if v is None else float(v) if not isinstance(v, bool) else v) for k, v in kw.items()}}
         # what the table itself says must reach the fit (independent of what the code did with it)
         kept = (gas > 0) & ~np.isnan(pres) if filt else np.ones(n0, dtype=bool)
